@@ -20,7 +20,7 @@ CHECKS = {   # seeded id -> [(property check, --only obligations or None)]
     'C08-a': [('C08', 'write_tag_inconsistent_fields_at1_off0,write_frag_inconsistent_fields_at0_off0,write_frag_inconsistent_fields_at1_off1'), ('C05', 'range_write_tag_UDINT,range_write_frag_INT')],
     'C10-a': [('C10', None)],
     'C11-a': [('C11', 'multibyte_plus,multibyte')],
-    'C12-a': [('C12', 'bundles_never_mix_paths_order1')],
+    'C12-a': [('C12', 'bundles_never_mix_paths_order1_depth0,bundles_never_mix_paths_order1_depth2')],
     'C13-a': [('C13', 'reply_lost_depth2_multiple100')],
     'C14-a': [('C14', 'unconnected_multiread,connected_read_small'), ('C03', 'configured_tags_are_distinct_arrays')],
     'C15-a': [('C15', 'route_one_vs_onestr_write,route_one_vs_one_write')],
